@@ -19,6 +19,8 @@ import TypVerif.Drv.C07
 import TypVerif.Drv.C12
 import TypVerif.Drv.C14
 import TypVerif.Drv.C15
+import TypVerif.Drv.C04conc
+import TypVerif.Drv.C04inv
 /-
 typdriver <Cxx> : reads annotated harness lines on stdin, prints one line per non-ok input line and a summary.
 Verdicts (DESIGN §4A):  cex  = implementation differs from the specification (property fails on this input)
@@ -48,7 +50,9 @@ def judges : List (String × Judge) := [
   ("C07", TypVerif.Drv.C07.judge),
   ("C12", TypVerif.Drv.C12.judge),
   ("C14", TypVerif.Drv.C14.judge),
-  ("C15", TypVerif.Drv.C15.judge)
+  ("C15", TypVerif.Drv.C15.judge),
+  ("C04conc", TypVerif.Drv.C04conc.judge),
+  ("C04inv", TypVerif.Drv.C04inv.judge)
 ]
 
 structure DAcc where
